@@ -24,6 +24,7 @@ type Violation struct {
 	Model  map[string]*big.Int
 	Stack  []string
 	Detail string
+	Known  string
 }
 
 type Engine struct {
@@ -35,7 +36,7 @@ type Engine struct {
 	violations []*Violation
 	stateSeq   int
 	stats      struct {
-		paths, forks, asserts, assertUnsat, assertSat, feas, steps int
+		paths, forks, asserts, assertUnsat, assertSat, assertTrivial, feas, steps int
 		byStatus                                               map[Status]int
 	}
 	reached     map[string]bool
@@ -44,6 +45,14 @@ type Engine struct {
 	modelsUsed  map[string]bool
 	pkgOfEntry  *ssa.Package
 	symBranch   map[string]int
+	entryName   string
+	pinned      map[string][]uint64
+	pinCursor   map[string]int
+	known       []KnownFinding
+	crossBudget int
+	cross       CrossStats
+	second      *Solver
+	samples     []Sample
 }
 
 type SymPtr struct {
